@@ -10,6 +10,7 @@ import PyecoreModel.Driver.ClsProto
 import PyecoreModel.Driver.OpsProto
 import PyecoreModel.Driver.StaticProto
 import PyecoreModel.Driver.XDocProto
+import PyecoreModel.Driver.JDocProto
 /-!
 Line-protocol driver over the executable model (`Model/*`, no Mathlib ⇒ links natively).
 `driver <protocol>` reads one operation per line on stdin and prints one record per line.
@@ -28,6 +29,7 @@ def main (args : List String) : IO UInt32 := do
   let stdin ← IO.getStdin
   match args with
   | ["oset"] => loop stdin Py.OSetProto.step Py.OSetProto.init; return 0
+  | ["jdoc"] => loop stdin JDoc.Proto.step XDoc.Proto.init; return 0
   | ["xdoc"] => loop stdin XDoc.Proto.step XDoc.Proto.init; return 0
   | ["static"] => loop stdin Static.Proto.step (); return 0
   | ["ops"] => loop stdin Ops.Proto.step (); return 0
